@@ -4,6 +4,7 @@ import (
 	"bytes"
 	"encoding/base64"
 	"encoding/hex"
+	"errors"
 	"fmt"
 	"net/url"
 	"os"
@@ -38,7 +39,7 @@ func init() {
 		Main:       flashMain,
 		MaxSimTime: 40 * 365 * 24 * time.Hour,
 		Rule: "per run the tape draws 1-3 browsers (cookie stores fed by net/http from the raw response bytes; optional unrelated cookies around fiber_flash), an alphabet (plain / punctuation , : ; \" = % space / control bytes + non-ASCII + invalid UTF-8 / all), a level mode (none / wire-safe / 0-255), pool drop rate and 2-24 sequential steps interleaved over the browsers: " +
-			"POST /go (0-5 With(k,v[,level]) incl. repeated keys, optional WithInput from urlencoded form / query / multipart data, To or Route), GET /show, GET /plain (handler may ignore the messages), GET /nest (handler serves another browser's step while its context is live), requests whose headers only mention the cookie name; " +
+			"POST /go (0-5 With(k,v[,level]) incl. repeated keys, optional WithInput from urlencoded form / query / multipart data, To or Route), GET /show, GET /plain (handler may ignore the messages), GET /nest (handler serves another browser's step while its context is live), GET /hop and /hop2 (consume, then redirect again without / with new messages), consumers below the root (/account/show, /account/plain, /a/b/hop, /a/b/hop2: cookies are scoped by path in both client tiers), consumers that fail after reading (fiber.NewError 503 / 500, plain error, 404 / 409), requests whose headers only mention the cookie name; " +
 			"fault stratum: the stored cookie is truncated to a drawn length, has bytes flipped or appended, or is replaced by crafted MessagePack (well-formed lists with old inputs, array headers announcing more elements than present up to 2^32-1, maps with missing / unknown / mistyped fields, nested junk); " +
 			"distinct = hash of (configuration, per step (browser, kind, client tier, cookie class, outcome class)); non-trivial = at least one attached message set was observed by a follow-up handler over the wire, or a hostile cookie reached the decoder. " +
 			"The simulated clock is advanced to 2026 before the workload (26 simulated years per run are idle time).",
@@ -130,6 +131,7 @@ type flashOp struct {
 	inputMode int // 0 none, 1 urlencoded form, 2 query, 3 multipart
 	route     bool
 	status    int
+	failCode  int // consumer: after recording the messages the handler fails: 0 no, -1 plain error, else *fiber.Error code
 	srvCookie string // the serialised cookie as the server put it into the response header
 	// any
 	read      bool
@@ -1066,6 +1068,13 @@ func flashMain(s *simrt.Sim, info *harness.RunInfo) {
 			op.nested()
 		}
 		record(c, op)
+		// a consumer that has looked at the messages and then fails
+		switch {
+		case op.failCode < 0:
+			return errors.New("consumer failed after reading the messages")
+		case op.failCode > 0:
+			return fiber.NewError(op.failCode, "consumer failed after reading the messages")
+		}
 		return c.SendString("ok")
 	}
 	// hop: consume the messages, then redirect again without (hop) or with new messages (hop2)
@@ -1341,6 +1350,10 @@ func (r *flashRun) request(bi int, kind string, depth int) {
 		r.genWith(op, simrt.PickS(s, 1, 2, 3), &budget)
 	}
 	hopping := kind == "hop" || kind == "hop2"
+	if !hopping {
+		// non-failing handler first; 503 and a plain error are server failures, 404 / 409 the control
+		op.failCode = simrt.PickS(s, 0, 0, 0, 0, 503, -1, 404, 409, 500)
+	}
 	// consumers also live below the root: the client scopes cookies by path
 	path := "/" + kind
 	if kind != "nest" && s.Chance(350) {
@@ -1403,6 +1416,12 @@ func (r *flashRun) request(bi int, kind string, depth int) {
 		op.nested = func() { r.step(other, depth+1) }
 	}
 	what := "GET " + path
+	switch {
+	case op.failCode < 0:
+		what += " (handler reads the messages, then returns a plain error)"
+	case op.failCode > 0:
+		what += fmt.Sprintf(" (handler reads the messages, then returns fiber.NewError(%d))", op.failCode)
+	}
 	switch {
 	case pending != nil:
 		what += fmt.Sprintf(" carrying the cookie of op%d (%s client)", pending.id, st.tier)
@@ -1514,7 +1533,7 @@ func (r *flashRun) request(bi int, kind string, depth int) {
 			outcome += "+alloc"
 		}
 	}
-	r.h.str(kind).int(bi).str(outcome)
+	r.h.str(kind).int(bi).int(op.failCode).str(outcome)
 }
 
 func (r *flashRun) checkDelivery(op, pending *flashOp, tier string, resp *harness.Resp, what, cookie string) string {
